@@ -146,8 +146,28 @@ def concurrent_downloads(run, binp):
                "directory mode; length and SHA-256 of every body are compared with the file's", [{"file_bytes": n}])
 
 
+def routes_obligation(run):
+    """the mux registrations of the working tree against the routing table the models assume"""
+    okr, gen, rlog = vlib.run_translator(run, "routes")
+    run.checker_cmds.append("translator/routes (go/parser over /repo/internal/hsrv) -> GenRoutes.v ; coqc GenDepC09.v (routes_match GenRoutes.routes = true)")
+    if not okr:
+        run.oblige("translator routes ran on /repo's working tree", False, rlog[-2000:])
+        return
+    open(os.path.join(run.rundir, "GenRoutes.v"), "w").write(gen)
+    open(os.path.join(run.rundir, "GenDepC09.v"), "w").write(
+        "From Coq Require Import List String.\nFrom CRS Require Import Lib.Bytes Model.Routes Props.C09.\nFrom Gen Require Import GenRoutes.\n"
+        "Theorem c09_tree_routes : routes_not_understood = 0%nat /\\ routes_match routes = true.\nProof. vm_compute. split; reflexivity. Qed.\n"
+        "Print Assumptions c09_tree_routes.\n")
+    rc1, o1, e1 = vlib.coqc("GenRoutes.v", run.rundir, extra_q=[(run.rundir, "Gen")])
+    rc2, o2, e2 = vlib.coqc("GenDepC09.v", run.rundir, extra_q=[(run.rundir, "Gen")]) if rc1 == 0 else (1, "", "")
+    run.oblige("per-run obligation c09_tree_routes: the patterns the working tree registers on its mux are exactly the routing table of Model/Routes "
+               "(/i/{id}, /o/{id}, /io, /io/, /c, and / only when files are served) - the table c09_shell_paths_are_the_shell_routes is about",
+               rc1 == 0 and rc2 == 0, (gen + o1 + e1 + o2 + e2)[-2500:])
+
+
 def check(run):
     vlib.static_obligations(run)
+    routes_obligation(run)
     ok, binp, log = vlib.build_overlay_test(run.rundir, "internal/hsrv", go="go")
     run.checker_cmds.append("go test -c -tags verif -overlay (harness/overlay/hsrv): real Server, raw request lines over real TLS")
     if not ok:
